@@ -103,8 +103,16 @@ struct World {
 
 fn run_program(line: &str) -> String {
     let log = Arc::new(Mutex::new(Vec::new()));
+    // the collector is installed as it is, type-erased in a Box, or in an Arc (a function of the program, so that the model
+    // needs no extra input): what reaches it must not depend on that
+    let erase = line.len() % 3;
     let mk = |name: usize, max: LevelFilter| {
-        Dispatch::new(RecC { name, max, next: AtomicU64::new(1), log: log.clone(), stacks: Mutex::new(HashMap::new()) })
+        let c = RecC { name, max, next: AtomicU64::new(1), log: log.clone(), stacks: Mutex::new(HashMap::new()) };
+        match erase {
+            1 => Dispatch::new(Box::new(c) as Box<dyn tracing_core::Collect + Send + Sync>),
+            2 => Dispatch::new(Arc::new(c)),
+            _ => Dispatch::new(c),
+        }
     };
     // collector 1 accepts everything, collector 2 accepts INFO and above only
     let collectors: HashMap<usize, Dispatch> = [(1, mk(1, LevelFilter::TRACE)), (2, mk(2, LevelFilter::INFO))].into_iter().collect();
